@@ -344,6 +344,21 @@ _MORE4 = {
 }
 for _k, _v in _MORE4.items():
     CHECKS[_k]['text'] += _v
+_MORE5 = {
+    'C02': ' Added from seed batch 12: a constant key of a save object is written on every successful path from the '
+           'creation of the object, except the tabled optional keys (reader default = omitted value).',
+    'C09': ' Added from seed batch 12: evaluate_function finds its function by an exact lookup of the name, not by an '
+           'approximating path search.',
+    'C12': ' Added with seed batch 12: the compiler writes a call of a source name as f() only after testing the name '
+           'against the EXTERNAL declarations; the refusal inside string evaluation has the constant severity error.',
+    'C13': ' Sharpened after seed batch 12: a place that empties the warnings before (or regardless of) the handler test '
+           'counts as emptying them without a handler.',
+    'C15': ' Corrected after seed batch 12: String::truncate / split_off / str::split_at_mut are panic sites.',
+    'C16': ' Added from seed batch 12: while a host evaluation frame is on top, can_pop_thread is false wherever it is '
+           'asked (in the predicate itself, or at every call site).',
+}
+for _k, _v in _MORE5.items():
+    CHECKS[_k]['text'] += _v
 
 NOT_APPLICABLE = {
     'C05': 'agreement with the reference compiler on the corpus is a relation between two outputs over 121 inputs and '
